@@ -41,10 +41,66 @@ GEN_FILE = C.LEAN / "Nstd" / "Generated" / "XmlEscape.lean"
 RE_ESC_BODY = re.compile(r"String Xml::Private::escapeString\(const String& str, bool attributeValue\)\s*\{(.*?)\n\}", re.S)
 
 
+ATOMS = {"result.length()": "len", "escapeString.length()": "nm", "(end - i)": "rem", "end - i": "rem", "result.capacity()": "cap"}
+
+
+def _tr_sum(expr, env):
+    """C sum of atoms / integers / local variables -> Lean term over cap len nm rem, or None"""
+    e = expr.strip()
+    for a, v in ATOMS.items():
+        e = e.replace(a, f" {v} ")
+    toks = e.replace("+", " + ").split()
+    out = []
+    for k, t in enumerate(toks):
+        if k % 2 == 1:
+            if t != "+":
+                return None
+            continue
+        if t.isdigit() or t in ("len", "nm", "rem", "cap"):
+            out.append(t)
+        elif t in env:
+            out.append(f"({env[t]})")
+        else:
+            return None
+    return " + ".join(out) if out and len(toks) % 2 == 1 else None
+
+
+def _tr_policy(stmts):
+    """statements between `result.resize(dest - destStart);` and `destStart = result;` -> Lean body of the
+    reserve policy (the size handed to result.reserve).  Understood: local `usize v = <sum>;`, conditional growth
+    `if(v > result.capacity()) v += <sum>;` (also >=), and the final `result.reserve(<sum or v>);`."""
+    env, lets = {}, []
+    lines = [x.strip() for x in re.sub(r"//[^\n]*", "", stmts).replace("\n", " ").split(";") if x.strip()]
+    for k, ln in enumerate(lines):
+        m = re.fullmatch(r"(?:const )?usize (\w+) = (.*)", ln)
+        if m:
+            t = _tr_sum(m.group(2), env)
+            if t is None:
+                return None
+            env[m.group(1)] = t
+            continue
+        m = re.fullmatch(r"if\((\w+) (>=?) result\.capacity\(\)\)\s*(\w+) \+= (.*)", ln)
+        if m and m.group(1) == m.group(3) and m.group(1) in env:
+            t = _tr_sum(m.group(4), env)
+            if t is None:
+                return None
+            v = env[m.group(1)]
+            env[m.group(1)] = f"if ({v}) {m.group(2)} cap then ({v}) + ({t}) else ({v})"
+            continue
+        m = re.fullmatch(r"result\.reserve\((.*)\)", ln)
+        if m and k == len(lines) - 1:
+            return _tr_sum(m.group(1), env)
+        return None
+    return None
+
+
 def gen(ctx=None, repo=None):
-    """writes lean/Nstd/Generated/XmlEscape.lean: initial slack of `String result(str.length() + N)`, the constant K of
-    `result.reserve(result.length() + escapeString.length() + K + (end - i))`, the number of bytes written per escape
-    ('&' + name + ';') and the rounding mask of String::detach.  A source that no longer has these shapes is a broken tie."""
+    """writes lean/Nstd/Generated/XmlEscape.lean: initial slack of `String result(str.length() + N)`, the RESERVE
+    POLICY of escapeString (the size it hands to result.reserve at every escape, as a function of capacity, written
+    length, name length and remaining input), and the rounding mask of String::detach.  The theorems hold for every
+    policy that reserves at least written + name + 2 + remaining - 1; the generated one must meet that bound
+    (EscapeMem.lean, `genPolicy_ok`), otherwise the proof breaks.  A source whose statements the translator does not
+    understand is a broken tie."""
     repo = repo or C.REPO
     try:
         src = (repo / "src/Document/Xml.cpp").read_text()
@@ -56,22 +112,22 @@ def gen(ctx=None, repo=None):
         return False, "Xml::Private::escapeString(const String&, bool) not found"
     body = m.group(1)
     m1 = re.search(r"String result\(str\.length\(\) \+ (\d+)\);", body)
-    m2 = re.findall(r"result\.reserve\(([^;]*)\);", body)
-    m2k = re.fullmatch(r"result\.length\(\) \+ escapeString\.length\(\) \+ (\d+) \+ \(end - i\)", m2[0].strip()) if len(m2) == 1 else None
-    writes = re.search(r"result\.resize\(dest - destStart\);\s*result\.reserve\([^;]*\);\s*destStart = result;\s*dest = destStart \+ result\.length\(\);\s*"
-                       r"\*\(dest\+\+\) = '&';\s*Memory::copy\(dest, \(const char\*\)escapeString, escapeString\.length\(\) \* sizeof\(char\)\);\s*"
-                       r"dest \+= escapeString\.length\(\);\s*\*\(dest\+\+\) = ';';", body)
+    win = re.search(r"result\.resize\(dest - destStart\);(.*?)destStart = result;\s*dest = destStart \+ result\.length\(\);\s*"
+                    r"\*\(dest\+\+\) = '&';\s*Memory::copy\(dest, \(const char\*\)escapeString, escapeString\.length\(\) \* sizeof\(char\)\);\s*"
+                    r"dest \+= escapeString\.length\(\);\s*\*\(dest\+\+\) = ';';", body, re.S)
+    pol = _tr_policy(win.group(1)) if win else None
     loop = re.search(r"for\(const char\* i = str, \* end = i \+ str\.length\(\); i < end; \+\+i\)", body)
     m3 = re.search(r"void detach\(usize copyLength, usize minCapacity\).*?usize capacity = minCapacity \| 0x([0-9a-fA-F]+);", hpp, re.S)
-    if not (m1 and m2k and writes and loop and m3):
-        miss = [n for n, x in (("initial capacity", m1), ("reserve expression", m2k), ("write sequence of an escape", writes),
-                               ("loop header", loop), ("String::detach rounding", m3)) if not x]
-        return False, "escapeString/String::detach no longer have the translated shape: " + ", ".join(miss)
+    if not (m1 and win and pol and loop and m3):
+        miss = [n for n, x in (("initial capacity", m1), ("resize / reserve / write sequence of an escape", win),
+                               ("reserve policy statements", pol), ("loop header", loop), ("String::detach rounding", m3)) if not x]
+        return False, "escapeString/String::detach: the translator does not understand: " + ", ".join(miss)
     text = ("/- generated by tools/areas/xml.py (gen) from src/Document/Xml.cpp and include/nstd/String.hpp — do not edit -/\n"
             "namespace Nstd.Xml.Generated\n\n"
             f"/-- `String result(str.length() + N)` -/\ndef escInitialSlack : Nat := {int(m1.group(1))}\n\n"
-            f"/-- `result.reserve(result.length() + escapeString.length() + K + (end - i))` -/\ndef escReserveExtra : Nat := {int(m2k.group(1))}\n\n"
-            "/-- bytes written per escape besides the name: `&` and `;` -/\ndef escFrame : Nat := 2\n\n"
+            "/-- the size escapeString hands to `result.reserve` when it replaces a byte by `&name;`:\n"
+            "    cap = result.capacity(), len = result.length() (bytes written), nm = name length, rem = end - i -/\n"
+            f"def escReservePolicy (cap len nm rem : Nat) : Nat :=\n  {pol}\n\n"
             f"/-- `String::detach`: `capacity = minCapacity | 0x…` -/\ndef capRoundMask : Nat := {int(m3.group(1), 16)}\n\n"
             "end Nstd.Xml.Generated\n")
     GEN_FILE.parent.mkdir(parents=True, exist_ok=True)
